@@ -1871,10 +1871,33 @@ class EntityInst(Instance):
 
         port_map: list[Tuple[str, str]] = []
 
-        for port_name in self._entity.ports():
-            port_map.append(
-                (port_name, self._scope.format_target(self._ports[port_name]))
-            )
+        def vector_kind(vec_type):
+            if not issubclass(vec_type, BitVector):
+                return None
+            if issubclass(vec_type, Signed):
+                return "signed"
+            return "unsigned" if issubclass(vec_type, Unsigned) else "std_logic_vector"
+
+        for port_name, port in self._entity.ports().items():
+            actual = self._ports[port_name]
+            actual_str = self._scope.format_target(actual)
+
+            # the vhdl type of a vector or slice is the type of its root object,
+            # convert if it differs from the type of the port (.unsigned and co.)
+            root_type = actual._root.type
+            if issubclass(root_type, Array):
+                root_type = root_type.elemtype()
+
+            formal_kind = vector_kind(port.type)
+            actual_kind = vector_kind(root_type)
+
+            if vector_kind(actual.type) and actual_kind and formal_kind != actual_kind:
+                if not port.is_output():
+                    actual_str = f"{formal_kind}({actual_str})"
+                if not port.is_input():
+                    port_name = f"{actual_kind}({port_name})"
+
+            port_map.append((port_name, actual_str))
 
         line_end = [","] * (len(port_map) - 1) + [""]
 
